@@ -92,17 +92,6 @@ Proof.
 Qed.
 
 (** the operator is not a lambda: fold or leave alone *)
-Definition kfold_app (d : dyn) (f' : kexpr) (args' : list kexpr) : kexpr :=
-  match f' with
-  | KOp o => if is_arith o then
-               match kall_simple args' with
-               | Some cs => match fst (fst (fold_eval d o cs)) with Some r => KLit r | None => KApp f' args' end
-               | None => KApp f' args'
-               end
-             else KApp f' args'
-  | _ => KApp f' args'
-  end.
-
 Definition fold_app (f' : expr) (args' : list expr) : expr :=
   match f' with
   | Op o => if is_arith o then
@@ -122,15 +111,20 @@ Proof.
   rewrite fold_eval_unobservable. cbn [fst]. destruct (prim_eval o cs); reflexivity.
 Qed.
 
+(* the two lemmas below are one unfolding step; keep the conversion from wandering into the arithmetic *)
+Strategy opaque [prim_eval fold_eval is_arith all_simple kall_simple].
+
 Definition is_klam (e : kexpr) : bool := match e with KLam _ _ _ _ _ => true | _ => false end.
 
 Lemma ksimplify_app_nonlam d f args S il : is_klam f = false ->
   ksimplify d (KApp f args) S il = kfold_app d (ksimplify d f S il) (map (fun a => ksimplify d a S il) args).
-Proof. destruct f; intros H; try reflexivity. discriminate. Qed.
+Proof. destruct f; intros H; try discriminate; reflexivity. Qed.
 
 Lemma simplify_app_nonlam f args S il : is_klam f = false ->
   simplify (App (erase f) args) S il = fold_app (simplify (erase f) S il) (map (fun a => simplify a S il) args).
-Proof. destruct f; intros H; try reflexivity. discriminate. Qed.
+Proof. destruct f; intros H; try discriminate; cbn [erase simplify fold_app]; reflexivity. Qed.
+
+Strategy transparent [prim_eval fold_eval is_arith all_simple kall_simple].
 
 Definition commutes (e : kexpr) : Prop :=
   forall d S il, erase (ksimplify d e S il) = simplify (erase e) (map erase_subst S) il.
